@@ -791,15 +791,26 @@ where
                         lock,
                         should_build_func: should_build_func.clone(),
                     }
-                    .start(ps_ref.clone(), ptx, server)?;
+                    .start(ps_ref.clone(), ptx, server);
                     let t = t.to_string();
                     let result = &result;
-                    job_futures.push(Box::pin(async move {
-                        let rv = job.await;
-                        if rv != EXIT_SUCCESS {
-                            result.set(Err(RedoError::new(format!("{:?}: exit code {}", t, rv))));
-                        }
-                    }));
+                    match job {
+                        Ok(job) => job_futures.push(Box::pin(async move {
+                            let rv = job.await;
+                            if rv != EXIT_SUCCESS {
+                                result.set(Err(RedoError::new(format!(
+                                    "{:?}: exit code {}",
+                                    t, rv
+                                ))));
+                            }
+                        })),
+                        // A target that cannot be started (it already failed in
+                        // this run, or it depends on itself) fails like a job:
+                        // the jobs that are running are still waited for.
+                        Err(e) => job_futures.push(Box::pin(async move {
+                            result.set(Err(e));
+                        })),
+                    }
                 }
             }
             assert!(ps_ref.borrow().is_flushed());
@@ -900,15 +911,23 @@ where
                         lock,
                         should_build_func: should_build_func.clone(),
                     }
-                    .start(ps_ref.clone(), ptx, server)?;
+                    .start(ps_ref.clone(), ptx, server);
                     let t = t.to_string();
                     let result = &result;
-                    job_futures.push(Box::pin(async move {
-                        let rv = job.await;
-                        if rv != EXIT_SUCCESS {
-                            result.set(Err(RedoError::new(format!("{:?}: exit code {}", t, rv))));
-                        }
-                    }));
+                    match job {
+                        Ok(job) => job_futures.push(Box::pin(async move {
+                            let rv = job.await;
+                            if rv != EXIT_SUCCESS {
+                                result.set(Err(RedoError::new(format!(
+                                    "{:?}: exit code {}",
+                                    t, rv
+                                ))));
+                            }
+                        })),
+                        Err(e) => job_futures.push(Box::pin(async move {
+                            result.set(Err(e));
+                        })),
+                    }
                 }
             }
         }
